@@ -62,6 +62,19 @@ Definition c18_cfg : cfg := mkCfg 64 0 0 0.
 Definition c18_ops : list op :=
   [OpPut [1] [10;10;10;10;10;10;10;10;10;10;10;10;10;10;10;10;10;10;10;10]; OpPut [2] [20]; OpPut [1] [11;11;11;11;11;11;11;11;11;11;11;11;11;11;11;11;11;11;11;11;11;11];
    OpPut [3] [30;30;30;30;30;30;30;30;30;30;30;30;30;30;30;30;30;30;30;30;30;30;30;30]; OpDel [2]; OpPut [4] [40]; OpPut [5] [50]; OpPut [6] [60]].
+(* Merge encodes the records it rewrites and the hint entries it writes through two scratch buffers of the engine
+   (the record-header buffer, the hint-position buffer) while other clients write: every use of those buffers, as
+   extracted from the current source with the locks held (translator T2c), follows the lockset discipline - the merge
+   works on buffers no concurrent Put / Delete / batch touches (its temporary engine has a header buffer of its own;
+   the hint buffer is used by the one running merge only). *)
+From KV Require LockSet GenAccess.
+Theorem C18_merge_encodes_through_private_buffers :
+  let sel := fun a => Nat.eqb (LockSet.a_loc a) GenAccess.loc_db_header_scratch || Nat.eqb (LockSet.a_loc a) GenAccess.loc_db_hint_scratch in
+  LockSet.lockset_ok (filter sel GenAccess.gen_accesses) = true /\
+  Nat.leb 2 (length (filter sel GenAccess.gen_accesses)) = true /\ GenAccess.gen_truncated = false.
+Proof. vm_compute. repeat split; reflexivity. Qed.
+Print Assumptions C18_merge_encodes_through_private_buffers.
+
 Example c18_hint_nonempty :
   match db_open c18_cfg empty_disk with
   | (OpenOk d k, _) =>
